@@ -715,3 +715,37 @@ def run_case(ctx, i, rng):
             fn(ctx, rng)
             return
         x -= w
+
+
+CONTRACT_TEST_FILES = ['tests/unittest/pywbem/test_cim_types.py',
+                       'tests/unittest/pywbem/test_cim_obj.py',
+                       'tests/unittest/pywbem/test_tupleparse.py',
+                       'tests/unittest/pywbem/test_valuemapping.py']
+
+
+def post_run(tier, seed, workdir):
+    """Thorough tier: the CIMInt range invariant (sys.monitoring hook) rides
+    along the repository's own unit tests, whose inputs the generators above
+    do not share."""
+    if tier != 'thorough':
+        return {}
+    from vf.contracts import run_repo_tests_with_contracts
+    rep = run_repo_tests_with_contracts(CONTRACT_TEST_FILES, workdir)
+    if 'error' in rep:
+        return {'inconclusive': [rep['error']]}
+    out = {'events': {'contracts:CIMInt.__new__.in-range.repo-tests':
+                      rep['cimint_checked']},
+           'extra': {'repo_tests_under_contract': {
+               'files': rep['files'], 'pytest': rep['pytest_tail'],
+               'cimint_objects_checked': rep['cimint_checked']}},
+           'violations': []}
+    for b in rep['cimint_bad']:
+        out['violations'].append({
+            'key': 'invariant.CIMInt.out-of-range-object',
+            'what': 'while the repository tests ran, a CIM integer object '
+                    'left its constructor out of range: %s' % b,
+            'case': None, 'seed': seed, 'detail': rep})
+    if not rep['cimint_checked']:
+        out['inconclusive'] = ['CIMInt invariant saw no object during the '
+                               'repository tests']
+    return out
